@@ -55,6 +55,10 @@ func (c *Constraints) transform(v reflect.Value) {
 		switch v.Kind() {
 		case reflect.Interface:
 			// in case we passed a pointer to an interface which is a string
+			// (a nil interface has nothing to transform)
+			if v.IsNil() {
+				return
+			}
 			i := v.Elem().Interface()
 			if s, ok := i.(string); ok {
 				v.Set(reflect.ValueOf(strings.ToUpper(s)))
@@ -71,6 +75,10 @@ func (c *Constraints) transform(v reflect.Value) {
 		switch v.Kind() {
 		case reflect.Interface:
 			// in case we passed a pointer to an interface which is a string
+			// (a nil interface has nothing to transform)
+			if v.IsNil() {
+				return
+			}
 			i := v.Elem().Interface()
 			if s, ok := i.(string); ok {
 				v.Set(reflect.ValueOf(strings.ToLower(s)))
